@@ -340,3 +340,479 @@ Proof.
   - destruct (Z.leb 0 d); inv H. auto.
   - unfold do_consume in H. destruct (s_ops s); [|discriminate]. destruct (s_guards s); [discriminate|discriminate].
 Qed.
+
+(* ------------------------------------------------------------------ *)
+(* third invariant: shape of program counters; a stream that is dropping a valueless guard for k
+   really owns a guard on k *)
+
+Record SInv (s : state) : Prop := {
+  si_shape : forall a p, aget a (s_ops s) = Some p -> pc_shape p;
+  si_unl : forall a subs k g, aget a (s_ops s) = Some (PStream subs) -> aget k subs = Some (SUnlocking g) ->
+             aget g (s_guards s) = Some k
+}.
+
+Lemma SInv_init : SInv init.
+Proof. constructor; cbn; intros; discriminate. Qed.
+
+Lemma sub_drops_init order : sub_drops (map (fun k : key => (k, SInit)) order) = [].
+Proof. induction order; cbn; auto. Qed.
+
+Lemma aget_init_subs order k st : aget k (map (fun k : key => (k, SInit)) order) = Some st -> st = SInit.
+Proof.
+  induction order as [|k0 t IH]; cbn; [discriminate|]. destruct (Nat.eqb k k0); [intros H; inv H; auto|auto].
+Qed.
+
+(* the new program counter of the agent that made an LResume step is never a stream with drops *)
+Lemma resume_no_unlocking c s a o s' ob subs' k g :
+  step c s (LResume a o) = ROk s' ob -> aget a (s_ops s') = Some (PStream subs') ->
+  aget k subs' <> Some (SUnlocking g).
+Proof.
+  intros H Ha' E. cbn [step] in H. unfold do_resume in H. destruct (aget a (s_ops s)) as [p|] eqn:Ha; [|discriminate].
+  assert (L : forall sh k0 s' o, do_lookup c s a sh k0 = ROk s' o -> aget a (s_ops s') <> Some (PStream subs')).
+  { intros sh k0 s1 o1 H1. unfold do_lookup in H1. destruct (aget k0 (s_ents s)) as [e0|].
+    - inv H1. cbn. rewrite aget_aset_eq. destruct (sh_is_try sh); discriminate.
+    - cbn [new_guard] in H1. inv H1. cbn. rewrite aget_adel_eq. discriminate. }
+  destruct p; try discriminate; try (apply cs_ok in H).
+  - unfold do_enter in H. destruct lim as [n|]; [|eapply L; eauto].
+    destruct (length (s_ents s) - (n - 1)); [eapply L; eauto|].
+    destruct (iter_order c s o); [|discriminate].
+    destruct (evict_scan (s_ents s) l (S n0)) as [[[|k1 ks]|]|]; try discriminate; [eapply L; eauto|].
+    destruct (lock_keys s (k1 :: ks)) as [s1 off]. inv H. cbn in Ha'. rewrite aget_aset_eq in Ha'. discriminate.
+  - unfold do_key_try in H. destruct (aget k0 (s_ents s)) as [e0|]; [|discriminate].
+    destruct (e_owner e0); inv H; cbn in Ha'; rewrite ?aget_aset_eq, ?aget_adel_eq in Ha'; discriminate.
+  - unfold do_key_wait in H. destruct (aget k0 (s_ents s)) as [e0|]; [|discriminate].
+    destruct (e_owner e0); inv H; cbn in Ha'; rewrite ?aget_aset_eq, ?aget_adel_eq in Ha'; discriminate.
+  - unfold do_queued in H. destruct (aget k0 (s_ents s)) as [e0|]; [|discriminate].
+    destruct (own_is_waiter _ a); inv H. cbn in Ha'. rewrite aget_adel_eq in Ha'. discriminate.
+  - unfold do_cleanup in H. destruct (cleanup_ents (s_ents s) k0) as [[ents|]|]; inv H.
+    cbn in Ha'. rewrite aget_adel_eq in Ha'. discriminate.
+  - destruct (cancel_ents c (s_ents s) a k0) as [[ents|]|]; inv H. cbn in Ha'. rewrite aget_adel_eq in Ha'. discriminate.
+  - unfold do_drops in H. destruct gs as [|g0 rest]; [discriminate|].
+    destruct (unlock_cs c s g0) as [[s1|]|] eqn:Hu; try discriminate.
+    destruct rest as [|g' rest']; [destruct af|]; inv H; cbn in Ha'; rewrite ?aget_aset_eq, ?aget_adel_eq in Ha'; discriminate.
+  - unfold do_scan in H. destruct (iter_order c s o); [|discriminate].
+    destruct (lock_keys s _) as [s1 ll]. inv H. cbn in Ha'. rewrite aget_adel_eq in Ha'. discriminate.
+  - unfold do_stream_enter in H. destruct (iter_order c s o); inv H.
+    cbn in Ha'. rewrite aget_aset_eq in Ha'. inv Ha'. apply aget_init_subs in E. discriminate.
+  - inv H. cbn in Ha'. rewrite aget_adel_eq in Ha'. discriminate.
+  - destruct (iter_order c s o); inv H. cbn in Ha'. rewrite aget_adel_eq in Ha'. discriminate.
+Qed.
+
+Lemma pc_of_upd ops a (p' : pc) a' p :
+  aget a' (aset a p' ops) = Some p -> (a' = a /\ p = p') \/ (a' <> a /\ aget a' ops = Some p).
+Proof. rewrite aget_aset. destruct (Nat.eqb_spec a' a); [intros H; inv H; auto|auto]. Qed.
+
+Lemma pc_of_del (ops : list (aid * pc)) a a' p :
+  aget a' (adel a ops) = Some p -> a' <> a /\ aget a' ops = Some p.
+Proof. rewrite aget_adel. destruct (Nat.eqb_spec a' a); [discriminate|auto]. Qed.
+
+Lemma classic_consume (l : label) : (exists oc, l = LConsume oc) \/ (forall oc, l <> LConsume oc).
+Proof. destruct l; try (right; intros; discriminate). left. eauto. Qed.
+
+Theorem step_sinv c s l s' o : Inv s -> DInv s -> SInv s -> step c s l = ROk s' o -> SInv s'.
+Proof.
+  intros HI HD [S1 S2] H.
+  pose proof (step_inv c s l s' o HI H) as HI'.
+  (* part 1: shapes *)
+  assert (SH : forall a p, aget a (s_ops s') = Some p -> pc_shape p).
+  { intros a p Ha'.
+    destruct (option_eq_dec_aid (label_agent l) a) as [Hl|Hl].
+    - destruct l; cbn in Hl; inv Hl.
+      + (* LStart *) cbn [step] in H. unfold do_start in H. destruct (amem a (s_ops s)) eqn:Em; [discriminate|].
+        destruct c0.
+        * destruct (lim_ok lim); inv H. cbn in Ha'. rewrite aget_aset_eq in Ha'. inv Ha'. exact I.
+        * destruct (guard_live s g); inv H. cbn in Ha'. rewrite begin_unlock_ops, aget_aset_eq in Ha'. inv Ha'. cbn. discriminate.
+        * destruct (c_lru c && Z.leb 0 d)%bool; [|discriminate]. destruct (cutoff_of _ _); inv H.
+          -- cbn in Ha'. rewrite aget_aset_eq in Ha'. inv Ha'. exact I.
+          -- eapply S1; eauto.
+        * inv H. cbn in Ha'. rewrite aget_aset_eq in Ha'. inv Ha'. exact I.
+        * inv H. cbn in Ha'. rewrite aget_aset_eq in Ha'. inv Ha'. exact I.
+        * inv H. cbn in Ha'. rewrite aget_aset_eq in Ha'. inv Ha'. exact I.
+      + (* LResume *) destruct (aget a (s_ops s)) as [p0|] eqn:Ha.
+        * destruct (resume_shape c s a p0 o0 s' o Ha (S1 _ _ Ha) H) as [E|(p' & E & _ & Hs)]; rewrite E in Ha'.
+          -- rewrite aget_adel_eq in Ha'. discriminate.
+          -- rewrite aget_aset_eq in Ha'. inv Ha'. auto.
+        * cbn [step] in H. unfold do_resume in H. rewrite Ha in H. discriminate.
+      + (* LSub *) destruct (aget a (s_ops s)) as [p0|] eqn:Ha.
+        * destruct (sub_shape c s a p0 k o0 s' o Ha (S1 _ _ Ha) (di_subs _ HD _ _ Ha) H) as [E|(p' & E & _ & Hs)]; rewrite E in Ha'.
+          -- rewrite aget_adel_eq in Ha'. discriminate.
+          -- rewrite aget_aset_eq in Ha'. inv Ha'. auto.
+        * cbn [step] in H. unfold do_sub in H. rewrite Ha in H. discriminate.
+      + (* LPollEnd *) cbn [step] in H. unfold do_pollend in H. destruct (aget a (s_ops s)) as [[]|] eqn:Ha; try discriminate.
+        destruct subs; inv H; eapply S1; eauto.
+      + (* LCancel *) cbn [step] in H. unfold do_cancel in H. destruct (aget a (s_ops s)) as [[]|] eqn:Ha; try discriminate.
+        * destruct (sh_is_async sh); inv H. cbn in Ha'. rewrite aget_adel_eq in Ha'. discriminate.
+        * destruct (sh_is_async sh); inv H. cbn in Ha'. rewrite aget_aset_eq in Ha'. inv Ha'. exact I.
+        * destruct (existsb _ subs) eqn:Ex; [discriminate|]. destruct subs as [|x t]; inv H.
+          -- cbn in Ha'. rewrite aget_adel_eq in Ha'. discriminate.
+          -- cbn in Ha'. rewrite aget_aset_eq in Ha'. inv Ha'. cbn. split; [discriminate|].
+             apply existsb_unlocking_false in Ex. exact Ex.
+      + (* LCbReturn *) cbn [step] in H. unfold do_cbreturn in H. destruct (aget a (s_ops s)) as [[]|] eqn:Ha; try discriminate.
+        destruct hold.
+        * destruct offered as [|g0 rest]; [discriminate|]. destruct (all_live s _ && _)%bool; inv H.
+          cbn in Ha'. rewrite begin_unlock_ops, aget_aset_eq in Ha'. inv Ha'. cbn. discriminate.
+        * destruct r; inv H; cbn in Ha'; rewrite ?aget_aset_eq, ?aget_adel_eq in Ha'; try discriminate. inv Ha'. exact I.
+    - destruct (classic_consume l) as [[oc ->]|Hnc].
+      + cbn [step] in H. unfold do_consume in H. destruct (s_ops s) eqn:Eo; [|discriminate]. destruct (s_guards s); [|discriminate].
+        destruct (negb _); [discriminate|]. destruct (iter_order c s oc); [|discriminate].
+        destruct (consume_list _ _); inv H. cbn in Ha'. rewrite Eo in Ha'. discriminate.
+      + rewrite (step_ops_other c s l s' o a H Hl Hnc) in Ha'. eapply S1; eauto. }
+  constructor; [exact SH|].
+  (* part 2: a stream that drops a valueless guard owns it *)
+  intros a subs' k g Ha' Hk.
+  assert (KEEP : forall k1, aget g (s_guards s) = Some k1 ->
+            (forall a1 p1, label_agent l = Some a1 -> aget a1 (s_ops s) = Some p1 -> ~ In g (drops_of p1) \/
+                           (forall orc rest af, l = LResume a1 orc -> p1 <> PDrops (g :: rest) af) /\
+                           (forall k0 orc subs, l = LSub a1 k0 orc -> p1 = PStream subs -> aget k0 subs <> Some (SUnlocking g))) ->
+            aget g (s_guards s') = Some k1).
+  { intros k1 Hg Hno. destruct (step_guard_kept c s l s' o g k1 HI H Hg) as [K|[(a1 & orc & rest & af & -> & Ha1)|(a1 & k0 & orc & subs & -> & Ha1 & Hk0)]]; auto.
+    - exfalso. destruct (Hno a1 _ eq_refl Ha1) as [N|[N _]]; [apply N; cbn; auto|eapply N; eauto].
+    - exfalso. destruct (Hno a1 _ eq_refl Ha1) as [N|[_ N]]; [apply N; cbn; apply sub_drops_in; exists k0; apply aget_In; auto|eapply N; eauto]. }
+  destruct (option_eq_dec_aid (label_agent l) a) as [Hl|Hl].
+  - (* the stream's own step *)
+    destruct (aget a (s_ops s)) as [p0|] eqn:Ha.
+    2:{ destruct l; cbn in Hl; inv Hl; cbn [step] in H.
+        - unfold do_start in H. destruct (amem a (s_ops s)); [discriminate|]. destruct c0.
+          + destruct (lim_ok lim); inv H. cbn in Ha'. rewrite aget_aset_eq in Ha'. discriminate.
+          + destruct (guard_live s g0); inv H. cbn in Ha'. rewrite begin_unlock_ops, aget_aset_eq in Ha'. discriminate.
+          + destruct (c_lru c && Z.leb 0 d)%bool; [|discriminate]. destruct (cutoff_of _ _); inv H.
+            * cbn in Ha'. rewrite aget_aset_eq in Ha'. discriminate.
+            * congruence.
+          + inv H. cbn in Ha'. rewrite aget_aset_eq in Ha'. discriminate.
+          + inv H. cbn in Ha'. rewrite aget_aset_eq in Ha'. discriminate.
+          + inv H. cbn in Ha'. rewrite aget_aset_eq in Ha'. discriminate.
+        - unfold do_resume in H. rewrite Ha in H. discriminate.
+        - unfold do_sub in H. rewrite Ha in H. discriminate.
+        - unfold do_pollend in H. rewrite Ha in H. discriminate.
+        - unfold do_cancel in H. rewrite Ha in H. discriminate.
+        - unfold do_cbreturn in H. rewrite Ha in H. discriminate. }
+    destruct l; cbn in Hl; inv Hl.
+    + cbn [step] in H. unfold do_start in H. unfold amem in H. rewrite Ha in H. discriminate.
+    + exfalso. eapply resume_no_unlocking; eauto.
+    + (* LSub a k0 *)
+      destruct p0; try (cbn [step] in H; unfold do_sub in H; rewrite Ha in H; discriminate).
+      * destruct (stream_own_step c s a subs k0 o0 s' o Ha H) as (subs1 & Ha1 & Hoth & Hcase).
+        rewrite Ha1 in Ha'. inv Ha'.
+        destruct (Nat.eq_dec k k0) as [->|Hne].
+        -- destruct Hcase as [(g1 & v & _ & _ & E & _)|[(_ & _ & E)|[(_ & _ & _ & g1 & E & Hin)|(_ & g1 & _ & E)]]];
+             rewrite E in Hk; try discriminate. inv Hk.
+           apply In_aget; auto. apply (inv_nd_g _ HI').
+        -- rewrite (Hoth k Hne) in Hk. apply (KEEP k (S2 _ _ _ _ Ha Hk)).
+           intros a1 p1 Hl1 Ha1'. inv Hl1. rewrite Ha in Ha1'. inv Ha1'. right. split; [intros; discriminate|].
+           intros k1 orc subs2 El Ep Hk1. inv El. inv Ep. apply Hne.
+           pose proof (S2 _ _ _ _ Ha Hk1) as G1. pose proof (S2 _ _ _ _ Ha Hk) as G2. congruence.
+      * (* PStreamDrop: the result is never a PStream *)
+        destruct (sub_shape c s a (PStreamDrop subs) k0 o0 s' o Ha (S1 _ _ Ha) (di_subs _ HD _ _ Ha) H) as [E|(p' & E & _ & Hs)].
+        -- rewrite E, aget_adel_eq in Ha'. discriminate.
+        -- cbn [step] in H. unfold do_sub in H. rewrite Ha in H. apply cs_ok in H. unfold do_sub_drop in H.
+           destruct (aget k0 subs) as [st|]; [|discriminate].
+           destruct st; try discriminate;
+             (destruct (cancel_ents c (s_ents s) a k0) as [[ents|]|]; try discriminate;
+              destruct (adel k0 subs); inv H; cbn in Ha'; rewrite ?aget_aset_eq, ?aget_adel_eq in Ha'; discriminate).
+    + cbn [step] in H. unfold do_pollend in H. rewrite Ha in H. destruct p0; try discriminate.
+      assert (s' = s) by (destruct subs; inv H; auto). subst s'. rewrite Ha in Ha'. inv Ha'. eapply S2; eauto.
+    + cbn [step] in H. unfold do_cancel in H. rewrite Ha in H. destruct p0; try discriminate.
+      * destruct (sh_is_async sh); inv H. cbn in Ha'. rewrite ?aget_aset_eq, ?aget_adel_eq in Ha'. discriminate.
+      * destruct (sh_is_async sh); inv H. cbn in Ha'. rewrite ?aget_aset_eq, ?aget_adel_eq in Ha'. discriminate.
+      * destruct (existsb _ subs); [discriminate|]. destruct subs; inv H; cbn in Ha'; rewrite ?aget_aset_eq, ?aget_adel_eq in Ha'; discriminate.
+    + cbn [step] in H. unfold do_cbreturn in H. rewrite Ha in H. destruct p0; try discriminate.
+      destruct hold.
+      * destruct offered as [|g0 rest]; [discriminate|]. destruct (all_live s _ && _)%bool; inv H.
+        cbn in Ha'. rewrite begin_unlock_ops, aget_aset_eq in Ha'. discriminate.
+      * destruct r; inv H; cbn in Ha'; rewrite ?aget_aset_eq, ?aget_adel_eq in Ha'; discriminate.
+  - (* somebody else's step *)
+    destruct (classic_consume l) as [[oc ->]|Hnc].
+    + cbn [step] in H. unfold do_consume in H. destruct (s_ops s) eqn:Eo; [|discriminate]. destruct (s_guards s); [|discriminate].
+      destruct (negb _); [discriminate|]. destruct (iter_order c s oc); [|discriminate].
+      destruct (consume_list _ _); inv H. cbn in Ha'. rewrite Eo in Ha'. discriminate.
+    + rewrite (step_ops_other c s l s' o a H Hl Hnc) in Ha'.
+      apply (KEEP k (S2 _ _ _ _ Ha' Hk)). intros a1 p1 Hl1 Ha1. left. intros Hin.
+      assert (a1 = a).
+      { eapply (di_excl _ HD a1 a); eauto. cbn. apply sub_drops_in. exists k. apply aget_In; auto. }
+      subst. congruence.
+Qed.
+
+Theorem reachable_sinv c s : reachable c s -> SInv s.
+Proof.
+  intros [ls H].
+  assert (G : forall s0 ls s1, steps c s0 ls s1 -> Inv s0 -> DInv s0 -> SInv s0 -> SInv s1).
+  { intros s0 ls0 s1 Hs. induction Hs; auto. intros HI HD HS.
+    apply IHHs; [eapply step_inv; eauto|eapply step_dinv; eauto|eapply step_sinv; eauto]. }
+  eapply G; eauto; [apply Inv_init|apply DInv_init|apply SInv_init].
+Qed.
+
+(* ------------------------------------------------------------------ *)
+(* the draining client *)
+
+Definition drain_ok (s : state) (l : label) : Prop :=
+  match l with
+  | LStart _ (CDrop _) | LResume _ _ | LSub _ _ _ | LCbReturn _ CbErr false => True
+  | LCancel a => aget a (s_ops s) = Some (PStream [])     (* only a stream that has delivered everything *)
+  | _ => False
+  end.
+
+Inductive dsteps (c : cfg) : state -> list label -> state -> Prop :=
+| ds_nil s : dsteps c s [] s
+| ds_cons s l s' o ls s'' :
+    drain_ok s l -> step c s l = ROk s' o -> dsteps c s' ls s'' -> dsteps c s (l :: ls) s''.
+
+Lemma dsteps_steps c s ls s' : dsteps c s ls s' -> steps c s ls s'.
+Proof. induction 1; econstructor; eauto. Qed.
+
+Lemma dsteps_app c s l1 s1 l2 s2 : dsteps c s l1 s1 -> dsteps c s1 l2 s2 -> dsteps c s (l1 ++ l2) s2.
+Proof. induction 1; cbn; auto. intros. econstructor; eauto. Qed.
+
+Lemma dsteps_one c s l s' o : drain_ok s l -> step c s l = ROk s' o -> dsteps c s [l] s'.
+Proof. intros. econstructor; eauto. constructor. Qed.
+
+(* measure bookkeeping *)
+Lemma m_del s s' a p : NoDup (akeys (s_ops s)) -> aget a (s_ops s) = Some p -> s_ops s' = adel a (s_ops s) ->
+  m_se s' + se_w p = m_se s /\ m_w s' + pc_w p = m_w s.
+Proof. intros Hnd Ha E. unfold m_se, m_w. rewrite E. split; apply asum_adel; auto. Qed.
+
+Lemma m_set s s' a p p' : aget a (s_ops s) = Some p -> s_ops s' = aset a p' (s_ops s) ->
+  m_se s' + se_w p = m_se s + se_w p' /\ m_w s' + pc_w p = m_w s + pc_w p'.
+Proof. intros Ha E. unfold m_se, m_w. rewrite E. split; apply asum_aset; auto. Qed.
+
+Lemma pc_w_pos p : pc_shape p -> se_w p = 1 \/ (se_w p = 0 /\ 0 < pc_w p).
+Proof.
+  destruct p; cbn; intros Hs; try (right; split; auto; lia); auto.
+  right. split; auto. destruct gs; [congruence|cbn; lia].
+Qed.
+
+Lemma shape_mlt s s' a p :
+  NoDup (akeys (s_ops s)) -> aget a (s_ops s) = Some p -> pc_shape p ->
+  (s_ops s' = adel a (s_ops s) \/ exists p', s_ops s' = aset a p' (s_ops s) /\ pc_lt p' p /\ pc_shape p') ->
+  mlt s' s.
+Proof.
+  intros Hnd Ha Hs [E|(p' & E & [L1 L2] & _)]; unfold mlt.
+  - destruct (m_del s s' a p Hnd Ha E) as [M1 M2]. destruct (pc_w_pos p Hs) as [P|[P1 P2]]; [left; lia|right; split; [lia|left; lia]].
+  - destruct (m_set s s' a p p' Ha E) as [M1 M2]. destruct L2 as [P|[P1 P2]]; [left; lia|right; split; [lia|left; lia]].
+Qed.
+
+(* oracle for the hash map: any duplicate-free enumeration of the keys, e.g. the keys themselves *)
+Lemma mem_nat_refl_all l : forallb (fun x => mem_nat x l) l = true.
+Proof. apply forallb_forall. intros x Hx. apply mem_nat_In. auto. Qed.
+
+Lemma oracle_self c s : Inv s -> oracle_ok c s (akeys (s_ents s)).
+Proof.
+  intros HI. right. unfold is_perm_of. rewrite Nat.eqb_refl, mem_nat_refl_all.
+  assert (nodup_nat (akeys (s_ents s)) = true) by (apply nodup_nat_NoDup; apply (inv_nd_e _ HI)).
+  rewrite H. reflexivity.
+Qed.
+
+Definition all_blocked (s : state) : Prop :=
+  forall a p, aget a (s_ops s) = Some p -> agent_blocked s a p = true.
+
+Lemma handed_owner s a k : handed s a k = true -> exists e, aget k (s_ents s) = Some e /\ e_owner e = Some (OwnW a).
+Proof.
+  unfold handed. destruct (aget k (s_ents s)) as [e|]; [|discriminate]. intros H. exists e. split; auto.
+  unfold own_is_waiter in H. destruct (e_owner e) as [[g|a']|]; try discriminate. apply Nat.eqb_eq in H. subst. auto.
+Qed.
+
+(* when nobody can move, whoever waits for a key waits behind a guard *)
+Lemma all_blocked_guard s a k : Inv s -> all_blocked s -> waits_on s a k -> exists g, aget g (s_guards s) = Some k.
+Proof.
+  intros HI HB W. pose proof (inv_k _ HI k) as [kmx kg kw kr k2 kp].
+  assert (NH : forall a', waits_on s a' k -> handed s a' k = false).
+  { intros a' (p' & Ha' & Hw'). pose proof (HB a' p' Ha') as B.
+    destruct p'; cbn in Hw'; try discriminate; cbn in B; try discriminate.
+    - apply Nat.eqb_eq in Hw'. subst. apply negb_true_iff in B. auto.
+    - destruct subs as [|x t]; [discriminate|]. rewrite forallb_forall in B. unfold sub_waits in Hw'.
+      destruct (aget k (x :: t)) as [[]|] eqn:Ek; try discriminate. apply aget_In in Ek.
+      specialize (B _ Ek). cbn in B. apply negb_true_iff in B. auto. }
+  pose proof (NH a W) as Na. apply kw in W as (e & He & Hw).
+  unfold handed in Na. rewrite He in Na.
+  destruct Hw as [Hin|Ho]; [|rewrite Ho in Na; cbn in Na; rewrite Nat.eqb_refl in Na; discriminate].
+  destruct (e_owner e) as [[g|a']|] eqn:Eo.
+  - exists g. apply kg. eauto.
+  - exfalso. assert (W' : waits_on s a' k) by (apply kw; eauto).
+    pose proof (NH a' W') as N'. unfold handed in N'. rewrite He, Eo in N'. cbn in N'. rewrite Nat.eqb_refl in N'. discriminate.
+  - destruct (kmx e He) as (m1 & _). rewrite (m1 Eo) in Hin. destruct Hin.
+Qed.
+
+Lemma all_blocked_not_busy s g : Inv s -> all_blocked s -> guard_busy s g = false.
+Proof.
+  intros HI HB. unfold guard_busy. destruct (existsb _ (s_ops s)) eqn:Ex; auto. exfalso.
+  apply existsb_exists in Ex as ([a p] & Hin & Hd). cbn in Hd.
+  apply (In_aget _ _ _ (inv_nd_o _ HI)) in Hin. pose proof (HB a p Hin) as B.
+  destruct p; cbn in Hd; try discriminate; cbn in B; try discriminate.
+  destruct subs as [|x t]; [discriminate|]. rewrite forallb_forall in B.
+  apply existsb_exists in Hd as ([k st] & Hin' & Hst). specialize (B _ Hin'). cbn in B, Hst.
+  destruct st; discriminate.
+Qed.
+
+Lemma adel_notin_id {V} k (m : list (nat * V)) : aget k m = None -> adel k m = m.
+Proof.
+  induction m as [|[k' v'] t IH]; cbn; auto. destruct (Nat.eqb_spec k k'); [discriminate|]. intros H. f_equal. auto.
+Qed.
+
+Lemma length_adel_le {V} k (m : list (nat * V)) : length (adel k m) <= length m.
+Proof. induction m as [|[k' v'] t IH]; cbn; auto. destruct (Nat.eqb k k'); cbn; lia. Qed.
+
+Definition fresh_aid (ops : list (aid * pc)) : aid := S (list_max (akeys ops)).
+
+Lemma fresh_aid_None ops : aget (fresh_aid ops) ops = None.
+Proof.
+  destruct (aget (fresh_aid ops) ops) eqn:E; auto. exfalso.
+  apply aget_Some_keys in E. assert (Forall (fun k => k <= list_max (akeys ops)) (akeys ops)) by (apply list_max_le; lia).
+  rewrite Forall_forall in H. specialize (H _ E). unfold fresh_aid in H. lia.
+Qed.
+
+Lemma forallb_false_ex {A} (f : A -> bool) l : forallb f l = false -> exists x, In x l /\ f x = false.
+Proof.
+  induction l as [|x t IH]; cbn; [discriminate|]. destruct (f x) eqn:E; cbn.
+  - intros H. destruct (IH H) as (y & Hy & Fy). eauto.
+  - intros _. eauto.
+Qed.
+
+Lemma drop_single c s a g o s' ob :
+  aget a (s_ops s) = Some (PDrops [g] ADoneUnit) -> step c s (LResume a o) = ROk s' ob ->
+  s_ops s' = adel a (s_ops s) /\ s_guards s' = adel g (s_guards s).
+Proof.
+  intros Ha H. cbn [step] in H. unfold do_resume in H. rewrite Ha in H. apply cs_ok in H. unfold do_drops in H.
+  destruct (unlock_cs c s g) as [[s1|]|] eqn:Hu; inv H. cbn.
+  rewrite (unlock_cs_ops c s g s1 Hu), (unlock_cs_guards c s g s1 Hu). auto.
+Qed.
+
+(* from every state that satisfies the invariants and is not at rest, the draining client has a move
+   (one or two labels) that decreases the measure *)
+Lemma progress c s : Inv s -> DInv s -> SInv s -> (s_ops s <> [] \/ s_guards s <> []) ->
+  exists ls s', dsteps c s ls s' /\ mlt s' s.
+Proof.
+  intros HI HD HS Hne.
+  destruct (existsb (fun ap => negb (agent_blocked s (fst ap) (snd ap))) (s_ops s)) eqn:Ex.
+  - apply existsb_exists in Ex as ([a p] & Hin & Hb). cbn in Hb. apply negb_true_iff in Hb.
+    pose proof (In_aget _ _ _ (inv_nd_o _ HI) Hin) as Ha.
+    pose proof (si_shape _ HS a p Ha) as Hsh.
+    assert (RUN : forall o, (exists s' ob, step c s (LResume a o) = ROk s' ob) ->
+                  exists ls s', dsteps c s ls s' /\ mlt s' s).
+    { intros o (s' & ob & Hst). exists [LResume a o], s'. split; [eapply dsteps_one; eauto; exact I|].
+      apply (shape_mlt s s' a p (inv_nd_o _ HI) Ha Hsh). eapply resume_shape; eauto. }
+    assert (SUB : forall k o, (exists s' ob, step c s (LSub a k o) = ROk s' ob) ->
+                  exists ls s', dsteps c s ls s' /\ mlt s' s).
+    { intros k o (s' & ob & Hst). exists [LSub a k o], s'. split; [eapply dsteps_one; eauto; exact I|].
+      apply (shape_mlt s s' a p (inv_nd_o _ HI) Ha Hsh). eapply sub_shape; eauto. eapply (di_subs _ HD); eauto. }
+    assert (RE : pc_runnable p = true -> exists ls s', dsteps c s ls s' /\ mlt s' s).
+    { intros Hr. apply (RUN (akeys (s_ents s))). eapply resume_enabled; eauto. intros _. apply oracle_self; auto. }
+    destruct p; try (apply RE; reflexivity).
+    + (* PInCb *) exists [LCbReturn a CbErr false], (fin s a). split.
+      * eapply dsteps_one; [exact I|]. cbn. unfold do_cbreturn. rewrite Ha. reflexivity.
+      * apply (shape_mlt s (fin s a) a _ (inv_nd_o _ HI) Ha Hsh). left. reflexivity.
+    + (* PQueued *) cbn in Hb. apply negb_false_iff in Hb. destruct (handed_owner s a k Hb) as (e & He & Ho).
+      apply (RUN []). destruct (handed_waiter_runs c s a sh k e [] Ha He Ho) as (s' & g & Hst & _). eauto.
+    + (* PDrops *) destruct gs as [|g rest]; [cbn in Hsh; congruence|]. apply (RUN []). eapply drop_enabled; eauto.
+    + (* PStream *) destruct subs as [|x t].
+      * exists [LCancel a], (fin s a). split.
+        -- eapply dsteps_one; [cbn; exact Ha|]. cbn. unfold do_cancel. rewrite Ha. reflexivity.
+        -- apply (shape_mlt s (fin s a) a _ (inv_nd_o _ HI) Ha Hsh). left. reflexivity.
+      * cbn [agent_blocked] in Hb. apply forallb_false_ex in Hb as ([k st] & Hin' & Hf). cbn in Hf.
+        pose proof (In_aget _ _ _ (di_subs _ HD _ _ Ha) Hin') as Hk. cbn [subs_of] in Hk.
+        destruct st.
+        -- apply (SUB k []). eapply stream_first_poll_enabled; eauto.
+        -- apply negb_false_iff in Hf. destruct (handed_owner s a k Hf) as (e & He & Ho).
+           apply (SUB k []). eapply stream_handed_poll_enabled; eauto.
+        -- pose proof (si_unl _ HS _ _ _ _ Ha Hk) as Hg. destruct (Inv_guard_present s g k HI Hg) as (e & He & _).
+           apply (SUB k []). eapply stream_unlock_enabled; eauto. rewrite He. discriminate.
+    + (* PStreamDrop *) destruct Hsh as [Hn Hsd]. destruct subs as [|[k st] t]; [congruence|].
+      assert (Hk : aget k ((k, st) :: t) = Some st) by (cbn; rewrite Nat.eqb_refl; auto).
+      apply (SUB k []). destruct st; [| |cbn in Hsd; discriminate];
+        (destruct (cancel_stream_sub c s a _ k [] HI Ha) as (s' & ob & Hst & _); [rewrite Hk; auto|eauto]).
+  - (* nobody can move *)
+    assert (HB : all_blocked s).
+    { intros a p Ha. apply aget_In in Ha. destruct (agent_blocked s a p) eqn:B; auto. exfalso.
+      assert (existsb (fun ap => negb (agent_blocked s (fst ap) (snd ap))) (s_ops s) = true).
+      { apply existsb_exists. exists (a, p). split; auto. cbn. rewrite B. auto. }
+      congruence. }
+    destruct (s_guards s) as [|[g k] gs] eqn:Eg.
+    + exfalso. destruct Hne as [Hne|Hne]; [|congruence]. destruct (s_ops s) as [|[a p] t] eqn:Eo; [congruence|].
+      assert (Ha : aget a (s_ops s) = Some p) by (rewrite Eo; cbn; rewrite Nat.eqb_refl; auto).
+      pose proof (HB a p Ha) as B.
+      assert (exists k, waits_on s a k) as [k W].
+      { destruct p; cbn in B; try discriminate.
+        - exists k. exists (PQueued sh k). split; auto. cbn. apply Nat.eqb_refl.
+        - destruct subs as [|[k st] t']; [discriminate|]. cbn in B. apply andb_true_iff in B as [B1 _].
+          destruct st; try discriminate.
+          exists k. exists (PStream ((k, SQueued) :: t')). split; auto. cbn. unfold sub_waits. cbn. rewrite Nat.eqb_refl. auto. }
+      destruct (all_blocked_guard s a k HI HB W) as [g Hg]. rewrite Eg in Hg. discriminate.
+    + (* drop the first guard *)
+      set (a' := fresh_aid (s_ops s)).
+      assert (Hf : aget a' (s_ops s) = None) by apply fresh_aid_None.
+      assert (Hgl : guard_live s g = true).
+      { unfold guard_live, amem. rewrite Eg. cbn. rewrite Nat.eqb_refl. cbn. rewrite all_blocked_not_busy; auto. }
+      set (s1 := set_pc (begin_unlock c s g) a' (PDrops [g] ADoneUnit)).
+      assert (H1 : step c s (LStart a' (CDrop g)) = ROk s1 ONothing).
+      { cbn. unfold do_start, amem. rewrite Hf, Hgl. reflexivity. }
+      pose proof (step_inv _ _ _ _ _ HI H1) as HI1. pose proof (step_dinv _ _ _ _ _ HI HD H1) as HD1.
+      assert (Ha1 : aget a' (s_ops s1) = Some (PDrops [g] ADoneUnit)) by (unfold s1; cbn; apply aget_aset_eq).
+      destruct (drop_enabled c s1 a' g [] ADoneUnit [] HI1 HD1 Ha1) as (s2 & ob & H2).
+      destruct (drop_single c s1 a' g [] s2 ob Ha1 H2) as [E1 E2].
+      exists [LStart a' (CDrop g); LResume a' []], s2. split.
+      * econstructor; [exact I|exact H1|]. eapply dsteps_one; [exact I|exact H2].
+      * assert (Eo : s_ops s2 = s_ops s).
+        { rewrite E1. unfold s1. cbn. rewrite begin_unlock_ops, adel_aset_same. apply adel_notin_id; auto. }
+        assert (Egs : s_guards s2 = adel g (s_guards s)).
+        { rewrite E2. unfold s1. cbn. rewrite begin_unlock_guards. auto. }
+        unfold mlt, m_se, m_w, m_g. rewrite Eo, Egs, Eg. right. split; auto. right. split; auto.
+        cbn. rewrite Nat.eqb_refl. apply Nat.lt_succ_r. apply length_adel_le.
+Qed.
+
+Lemma dsteps_preserve c s ls s' : dsteps c s ls s' -> Inv s -> DInv s -> SInv s -> Inv s' /\ DInv s' /\ SInv s'.
+Proof.
+  induction 1; auto. intros HI HD HS. apply IHdsteps.
+  - eapply step_inv; eauto.
+  - eapply step_dinv; eauto.
+  - eapply step_sinv; eauto.
+Qed.
+
+Lemma drain_aux c : forall n1 n2 n3 s,
+  m_se s = n1 -> m_w s = n2 -> m_g s = n3 -> Inv s -> DInv s -> SInv s ->
+  exists ls s', dsteps c s ls s' /\ s_ops s' = [] /\ s_guards s' = [].
+Proof.
+  induction n1 as [n1 IH1] using lt_wf_ind.
+  induction n2 as [n2 IH2] using lt_wf_ind.
+  induction n3 as [n3 IH3] using lt_wf_ind.
+  intros s E1 E2 E3 HI HD HS.
+  assert (D : (s_ops s = [] /\ s_guards s = []) \/ (s_ops s <> [] \/ s_guards s <> [])).
+  { destruct (s_ops s); [destruct (s_guards s); [left; auto|right; right; discriminate]|right; left; discriminate]. }
+  destruct D as [[Eo Eg]|Hne]; [exists [], s; split; [constructor|auto]|].
+  destruct (progress c s HI HD HS Hne) as (ls & s1 & Hd & Hlt).
+  destruct (dsteps_preserve c s ls s1 Hd HI HD HS) as (HI1 & HD1 & HS1).
+  assert (R : exists ls2 s2, dsteps c s1 ls2 s2 /\ s_ops s2 = [] /\ s_guards s2 = []).
+  { destruct Hlt as [L|[Ee [L|[Ew L]]]].
+    - apply (IH1 (m_se s1)) with (n2 := m_w s1) (n3 := m_g s1); auto. lia.
+    - apply (IH2 (m_w s1)) with (n3 := m_g s1); auto; lia.
+    - apply (IH3 (m_g s1)); auto; lia. }
+  destruct R as (ls2 & s2 & Hd2 & Hr). exists (ls ++ ls2), s2. split; auto. eapply dsteps_app; eauto.
+Qed.
+
+(* THE THEOREM: no library-made deadlock.  From every reachable state -- any number of calls in flight on
+   any keys, blocked behind each other, soft-limited calls in the middle of eviction rounds, streams half
+   consumed or half dropped, guards being dropped -- the client can reach a state of rest without starting
+   or cancelling any lock call. *)
+Theorem drain c s : reachable c s ->
+  exists ls s', dsteps c s ls s' /\ s_ops s' = [] /\ s_guards s' = [].
+Proof.
+  intros H. eapply drain_aux; eauto; [eapply reachable_inv|eapply reachable_dinv|eapply reachable_sinv]; eauto.
+Qed.
+
+(* in particular: no reachable state is a dead end for the calls in flight *)
+Corollary never_stuck c s : reachable c s -> (s_ops s <> [] \/ s_guards s <> []) ->
+  exists l s' o, drain_ok s l /\ step c s l = ROk s' o.
+Proof.
+  intros H Hne.
+  destruct (progress c s (reachable_inv c s H) (reachable_dinv c s H) (reachable_sinv c s H) Hne) as (ls & s1 & Hd & Hlt).
+  destruct Hd as [s0|s0 l s' o ls s'' Hok Hst _]; [|eauto].
+  exfalso. unfold mlt in Hlt. lia.
+Qed.
+
+(* the hypothesis of C03_stream_drops_valueless_guard that the entry is present is an invariant *)
+Theorem stream_unlock_enabled' c s a subs k g o :
+  reachable c s -> aget a (s_ops s) = Some (PStream subs) -> aget k subs = Some (SUnlocking g) ->
+  exists s' ob, step c s (LSub a k o) = ROk s' ob.
+Proof.
+  intros H Ha Hk. pose proof (reachable_inv c s H) as HI.
+  pose proof (si_unl _ (reachable_sinv c s H) _ _ _ _ Ha Hk) as Hg.
+  destruct (Inv_guard_present s g k HI Hg) as (e & He & _).
+  eapply stream_unlock_enabled; eauto. eapply reachable_dinv; eauto. rewrite He. discriminate.
+Qed.
